@@ -26,6 +26,51 @@ def spec_name(x: str) -> str:
     return x.replace("_", "-")
 
 
+def _apply_name(ctx: Ctx, paths: Any, w: str) -> str:
+    hits = []
+    for p in paths:
+        leaf = p["leaf"]
+        arg = leaf.run.__dict__["arg"]
+        b = {arg.uid: w}
+        ok = True
+        for atom, val in p["conds"]:
+            ai = leaf.run.atom_info.get(atom)
+            if ai is None:
+                raise Unmodelled(f"_normalize_attr_name: condition {atom!r} not modelled")
+            if eval_atom(ai, b) != bool(val):
+                ok = False
+                break
+        if ok:
+            hits.append(eval_sstr(p["value"], b))
+    ctx.require(len(hits) == 1, f"_normalize_attr_name: {len(hits)} paths apply to the name {w!r}")
+    return hits[0]
+
+
+def name_idempotence(ctx: Ctx, rule: str) -> None:
+    """copy.copy of a dict subclass re-inserts every item through __setitem__ (CPython's copy._reconstruct), and
+    Tag.tagify()/render() copy the attribute dict: stored names survive only if the name normaliser is idempotent."""
+    prog = ctx.prog
+    ci = prog.get_class("TagAttrDict")
+    ctx.require(ci is not None, "anchor vanished: TagAttrDict")
+    own_copy = prog.find_method(ci, "__copy__")
+    setitem = prog.find_method(ci, "__setitem__")
+    if own_copy is not None and own_copy[0].module.name.startswith("htmltools"):
+        return   # the class defines its own copy: Engine A reads it
+    if setitem is None or not setitem[0].module.name.startswith("htmltools"):
+        return   # items are re-inserted with dict.__setitem__: names untouched
+    info = attrmodel.normalize_name_pipeline(prog)
+    paths = info["paths"]
+    ctx.require(all(p["kind"] == "return" for p in paths), "_normalize_attr_name can raise")
+    for w in PROBES:
+        once = _apply_name(ctx, paths, w)
+        twice = _apply_name(ctx, paths, once)
+        ctx.check(once == twice, rule, f"stored name {once!r} (from {w!r}) survives the copy made by tagify()/render()", NN,
+                  f"{w!r} -> {once!r} -> {twice!r}",
+                  f"the name normaliser is not idempotent: {w!r} is stored as {once!r}, but copying the attribute dict (Tag.tagify, render, str) re-inserts "
+                  f"it through __setitem__ and turns it into {twice!r}: the rendered attribute name differs from the stored one",
+                  witness=f"t = div(**{{{w!r}: 'v'}}); list(t.attrs) vs str(t)")
+
+
 def name_pipeline(ctx: Ctx) -> None:
     info = attrmodel.normalize_name_pipeline(ctx.prog)
     for d in info["decorators"]:
@@ -55,6 +100,49 @@ def name_pipeline(ctx: Ctx) -> None:
         ctx.check(hits[0] == want, "C15.name", f"name {w!r} -> {want!r}", NN, f"{w!r} -> {hits[0]!r}",
                   f"the attribute name {w!r} is normalised to {hits[0]!r}; the rule (one trailing underscore removed, remaining "
                   f"underscores to hyphens) gives {want!r}", witness=f"div(**{{{w!r}: 'v'}}) / tag.attrs[{w!r}] = 'v'")
+
+
+def init_delegates(ctx: Ctx) -> None:
+    """TagAttrDict(*dicts, **kw) merges exactly like update(): every path of __init__ hands all its arguments to one
+    self.update(*args, **kwargs) and writes nothing else (a direct item store would replace instead of joining)."""
+    prog = ctx.prog
+    I = Interp(prog)
+    where = f"{CORE}:TagAttrDict.__init__"
+    fn = prog.function(CORE, "TagAttrDict.__init__")
+    a = fn.args
+    ctx.require(a.vararg is not None and a.kwarg is not None, "TagAttrDict.__init__ signature changed")
+    cfg = Config()
+    cfg.opaque_all = True
+    cfg.coarse_counts = True
+
+    def mk(run: Any):
+        s = SObj("self", {"TAGATTRDICT"}, origin="new")
+        va = SObj(a.vararg.arg, {"TUPLE"})
+        kw = SObj(a.kwarg.arg, {"DICT"})
+        run.__dict__["o"] = (s, va, kw)
+        return ({a.args[0].arg: s, a.vararg.arg: va, a.kwarg.arg: kw}, s)
+
+    n = 0
+    for l in I.run_function(CORE, "TagAttrDict.__init__", mk, cfg):
+        if l.kind != "return":
+            continue
+        n += 1
+        s, va, kw = l.run.__dict__["o"]
+        upd = [e for e in l.effects if e.kind == "call" and getattr(e.target, "qual", "") == "TagAttrDict.update" and e.key is s]
+        ok = len(upd) == 1
+        if ok:
+            ex = upd[0].extra or {}
+            star = [x.value if isinstance(x, SSplat) else None for x in (upd[0].value or [])]
+            ok = any(x is va for x in star) and any(d is kw for d in (ex.get("dstar") or []))
+        other = [e for e in l.effects if (e.kind in ("store_item", "mutcall", "basecall") and e.target is s and not (e.kind == "basecall" and str(e.key).endswith("__init__")))
+                 or (e.kind == "call" and getattr(e.target, "qual", "") == "TagAttrDict.__setitem__")]
+        labels = [str(lbl) for _, lbl in l.atoms][:3]
+        ctx.check(ok and not other, "C15.merge", "TagAttrDict.__init__ hands all its arguments to one self.update(*args, **kwargs)", where,
+                  f"path {labels}: update calls {len(upd)}, other writes {[(e.kind, short(e.key)) for e in other][:3]}",
+                  f"on the path {labels} the constructor does not go through update(*args, **kwargs) (other writes: {[(e.kind, short(e.key)) for e in other][:2]}): "
+                  f"values given for the same normalised name replace each other instead of being joined",
+                  witness="TagAttrDict({'class': 'a', 'class_': 'b'})  /  div({'x': '1', 'x_': '2'})")
+    ctx.min_count("TagAttrDict.__init__ paths", n, 1)
 
 
 def update_obligations(ctx: Ctx) -> None:
@@ -282,6 +370,8 @@ def check(ctx: Ctx) -> None:
     ctx.trust("dict preserves insertion order", "Engine A abstract semantics", "str methods evaluated on probe names by the checker's interpreter")
     value_table_obligations(ctx, "C15")
     name_pipeline(ctx)
+    name_idempotence(ctx, "C15.name")
+    init_delegates(ctx)
     update_obligations(ctx)
     setitem_obligations(ctx, "C15")
     partition_obligations(ctx)
